@@ -83,7 +83,10 @@ type c18World struct {
 	dns map[string]map[uint16][]c18DnsEntry
 	// strings the real-domain probe verified / negatively cached (exact strings)
 	verified map[string]bool
-	neg      map[string]time.Time
+	// spellings whose probe got a record from one family and an error from the
+	// other: the statement does not settle whether that verifies the name
+	maybeVerified map[string]bool
+	neg           map[string]time.Time
 	// probe unit only: what the stub resolver says about a bare name
 	probeTruth map[string]string // see c18ProbeOutcomes
 	probeCalls []string
@@ -144,6 +147,7 @@ func c18NewWorld(mode consts.DialMode, resolvers []netip.AddrPort, optimistic bo
 		cp: cp, dc: dc, ctx: ctx,
 		dns:        map[string]map[uint16][]c18DnsEntry{},
 		verified:   map[string]bool{},
+		maybeVerified: map[string]bool{},
 		neg:        map[string]time.Time{},
 		probeTruth: map[string]string{},
 	}
@@ -594,6 +598,11 @@ func (w *c18World) c18Expect(mode consts.DialMode, reserved bool, dst netip.Addr
 	verifiedOtherForm := false
 	for v := range w.verified {
 		if v != sn.S && c18BareOf(v) == sn.Bare {
+			verifiedOtherForm = true
+		}
+	}
+	for v := range w.maybeVerified {
+		if c18BareOf(v) == sn.Bare {
 			verifiedOtherForm = true
 		}
 	}
